@@ -167,6 +167,7 @@ type Ex struct {
 	Props        map[string]bool // properties whose clauses are to be checked (nil = all)
 	Safety       bool            // generate no-panic obligations
 	FrameChk     bool            // generate store/frame obligations (C18)
+	OnlyKinds    map[string]bool // when set: only obligations of these kinds are generated, the others assumed
 	LevelChk     bool            // ghost frame level tracking (C16)
 	Top          *Frame
 	covers       int
@@ -227,6 +228,11 @@ func (ex *Ex) pos(p token.Pos) string {
 
 // oblige records goal under the current path condition.
 func (ex *Ex) oblige(fr *Frame, st *State, name, kind string, props []string, text string, goal *T, pos token.Pos) {
+	if ex.OnlyKinds != nil && !ex.OnlyKinds[kind] {
+		// obligations of other kinds are discharged by the checks of their own properties
+		st.Assume(goal)
+		return
+	}
 	o := ex.Obls[name]
 	if o == nil {
 		o = &Obligation{Name: name, Func: ex.Top.Name, Kind: kind, Props: props, Text: text, Pos: ex.pos(pos)}
